@@ -154,4 +154,11 @@ CHECKS = {
              'Histories of calls to the real helpers on five streams and a two-phase stream log all flows before / after; TLC judges per call: per-chemical balance, non-negativity unless infeasibility is reported, split / moisture / partition-coefficient / '
              'reconstruction / residual targets, forced top and bottom chemicals, frame (untouched streams).',
         note='Trusted: TLC; targets measured in floating point by the driver; equilibrium wrappers judged on balance only.'),
+    'C04': dict(
+        engine='Flash', category='model_checking',
+        technique='TLA+ spec of the Rachford-Rice characterisation of an ideal flash over exact rationals (Flash.tla on IdealVLE.tla), model-checked by TLC; proposals verified exactly by TLC are compared with real flashes of synthetic chemicals, and measured clauses of real-package flashes are judged by TLC',
+        text='TLC checks on a grid that every feed and T / P ratio falls in exactly one region (all liquid / all vapour / two-phase with a Rachford-Rice root) independent of the feed scale. For synthetic ideal mixtures the driver proposes the solution (x, V); '
+             'TLC verifies it in rationals and the real vle(T,P), vle(T,V), vle(P,V) must return it. For alcohol / hydrocarbon / aqueous packages (ideal and Dortmund, with optional non-condensable and non-volatile) the driver measures per flash: specified T / P returned, '
+             'H / S reproduced, specified vapour fraction bracketed by neighbouring flashes, phase boundaries, iso-fugacity, scaling; TLC judges each.',
+        note='Trusted: TLC; bubble / dew pressures and fugacity objects of the library for the real-package clauses (C08, C16); tolerances as listed in the assumptions.'),
 }
